@@ -144,6 +144,12 @@ func (c *Config) Get(format string) (info *Info, err error) {
 	if err = mergo.Merge(info, c.Info, mergo.WithOverride); err != nil {
 		return nil, fmt.Errorf("failed to merge config into info: %w", err)
 	}
+	// mergo copies pointer fields as they are: give the returned Info its own
+	// key ids, otherwise merging an override below writes through them into c
+	// (and so into what Get returns for every other format)
+	info.Deb.Signature.KeyID = cloneStringPointer(c.Deb.Signature.KeyID)
+	info.RPM.Signature.KeyID = cloneStringPointer(c.RPM.Signature.KeyID)
+	info.APK.Signature.KeyID = cloneStringPointer(c.APK.Signature.KeyID)
 	override, ok := c.Overrides[format]
 	if !ok {
 		// no overrides
@@ -161,6 +167,14 @@ func (c *Config) Get(format string) (info *Info, err error) {
 	}
 	info.Contents = contents
 	return info, nil
+}
+
+func cloneStringPointer(s *string) *string {
+	if s == nil {
+		return nil
+	}
+	v := *s
+	return &v
 }
 
 // Validate ensures that the config is well typed.
